@@ -485,6 +485,10 @@ class XyeEngine(Engine):
             self._interleaved(scn, ctx)
         if scn.get("interrupt") and not ctx.violations:
             self._interrupted(scn, ctx)
+            if scn["sink"] in ("path", "path_str") and not ctx.violations:
+                self._interrupted_path(scn, ctx)
+                # put the scenario's own table back: the fault family below works on that file
+                self._save(scn, ctx, self._target(scn, ctx), label="save_restore_own_table")
         writes = target.sim_writes if scn["sink"] == "mem" else None
         mode = scn["faults"]["mode"]
         if mode == "enum_writes" and scn["sink"] == "mem":
@@ -622,6 +626,49 @@ class XyeEngine(Engine):
                             f"raised {e2}", kind="save_after_interrupt_raised", exc=e2.name)
                 return
             self._load_and_compare(a, ctx, t, f"saved again after an interruption at {where} {at}/{totals[where]}")
+            if ctx.violations:
+                return
+
+    def _interrupted_path(self, scn, ctx):
+        """A save to a real path is interrupted at a line of xye.py and the caller KEEPS the
+        exception for a while (an interactive session keeps the last traceback, a handler stores
+        it): frames and whatever they hold stay alive.  Meanwhile another table is saved to the
+        same path in the ordinary way; then the exception is released; then the file is loaded:
+        it must be the table saved last."""
+        import gc
+
+        import scippneutron.io.xye as xye
+
+        it = scn["interrupt"]
+        prefixes = (xye.__file__,)
+        b = dict(self._twin(scn, __import__("random").Random(scn.get("seed", 0) or 1)))
+        b.update(sink=scn["sink"], fname=scn["fname"], faults={"mode": "none"})
+        counter = seams.Preemptor(prefixes, {})
+        if counter.run(lambda: self._save(scn, ctx, self._target(scn, ctx), label="save_counting_pass")) is not None:
+            return
+        total = counter.ordinal
+        pts = range(total) if it.get("sweep") else [min(total - 1, int(it.get("frac", 0.5) * total)) if total else 0]
+        for at in pts:
+            held = None
+            ctx.fault_configured("interrupt_at_line(path)")
+            try:
+                seams.Preemptor(prefixes, {at: seams.interrupt_now}).run(
+                    lambda: self._save(scn, ctx, self._target(scn, ctx), label="save_interrupted"))
+                ctx.probe("interruption_point_not_reached")
+                continue
+            except seams.SimInterrupt as e:
+                held = e  # traceback -> frames -> locals stay alive
+            ctx.fault_fired("interrupt_at_line(path)")
+            e2 = self._save(b, ctx, self._target(b, ctx), label="save_other_table_same_path")
+            held = None
+            gc.collect()
+            ctx.probe("exception_of_interrupted_save_held_across_the_next_save")
+            if e2 is not None:
+                ctx.violate("save_raised", f"after an interrupted save (exception still held) an ordinary save to "
+                            f"the same path raised {e2}", kind="save_after_interrupt_raised", exc=e2.name)
+                return
+            self._load_and_compare(b, ctx, self._target(b, ctx), f"path after an interrupted save at line event {at}/{total} "
+                                   "whose exception was held across the next save")
             if ctx.violations:
                 return
 
